@@ -86,7 +86,10 @@ pub fn valid_value(rng: &mut Rng, spec: &CharacterDataSpec, version: AutosarVers
             3 => u64::from(u32::MAX) + 1,
             _ => rng.next() >> rng.below(64),
         })),
-        CharacterDataSpec::Float => Some(CharacterData::Float(match rng.below(8) {
+        CharacterDataSpec::Float => Some(CharacterData::Float(match rng.below(11) {
+            8 => f64::NAN,
+            9 => f64::INFINITY,
+            10 => f64::NEG_INFINITY,
             0 => 0.0,
             1 => -0.0,
             2 => 1.5,
